@@ -31,8 +31,17 @@ int sk_clock_gettime(clockid_t id, struct timespec *ts) {
 int sk_close(int fd) { yield_point("close"); return R->k.k_close(fd, OWN_LIB); }
 int sk_dup(int fd) { yield_point("dup"); return R->k.k_dup(fd, OWN_LIB); }
 int sk_pipe(int fds[2]) { yield_point("pipe"); return R->k.k_pipe(fds, OWN_LIB); }
-ssize_t sk_read(int fd, void *buf, size_t n) { yield_point("read"); return R->k.k_read(fd, buf, n, OWN_LIB); }
-ssize_t sk_write(int fd, const void *buf, size_t n) { yield_point("write"); return R->k.k_write(fd, buf, n, OWN_LIB); }
+ssize_t sk_read(int fd, void *buf, size_t n) {
+    yield_point("read");
+    ssize_t r = R->k.k_read(fd, buf, n, OWN_LIB);
+    if (r > 0) { int e = errno; race_range(buf, (size_t)r, true); errno = e; }
+    return r;
+}
+ssize_t sk_write(int fd, const void *buf, size_t n) {
+    yield_point("write");
+    if (n) race_range(buf, n, false);
+    return R->k.k_write(fd, buf, n, OWN_LIB);
+}
 
 int sk_fcntl(int fd, int cmd, ...) {
     va_list ap;
